@@ -13,11 +13,12 @@ import (
 	"path/filepath"
 	"sort"
 	"strings"
+	"sync"
 	"time"
 
+	"github.com/coredhcp/coredhcp/handler"
 	"github.com/coredhcp/coredhcp/plugins/leasetime"
 	rangeplugin "github.com/coredhcp/coredhcp/plugins/range"
-	"github.com/coredhcp/coredhcp/handler"
 	"github.com/insomniacslk/dhcp/dhcpv4"
 
 	"verif/internal/fw"
@@ -47,6 +48,10 @@ type rangeCase struct {
 	// SlowRenew: after the history, one client re-requests twice with real pauses in
 	// between (the promise moves forward with the clock; the stored expiry must follow)
 	SlowRenew int `json:"slow_renew_ms,omitempty"`
+	// FastRepeat: after the history one bound client sends the SAME datagram (same transaction id, same bytes,
+	// as a PXE ROM or a bridging loop does) five times, this many milliseconds apart (< 1 s); every copy's reply
+	// promises a full lease from then on, so the stored expiry must follow every copy
+	FastRepeat int `json:"fast_repeat_ms,omitempty"`
 	// LeaseTimeBefore: the lease_time plugin (with this value) is placed before range in the chain, as in
 	// the shipped example configuration; range still decides the lease it promises and stores
 	LeaseTimeBefore string `json:"lease_time_before,omitempty"`
@@ -144,6 +149,10 @@ func (rangeEngine) Gen(rng *rand.Rand, tier string, i int) any {
 	if i%16 == 7 {
 		c.LockFaultAt = 2 + rng.Intn(6)
 	}
+	if i%12 == 2 {
+		c.FastRepeat = 550 + rng.Intn(400)
+		c.Lease = []string{"10m", "1h", "24h", "60s"}[rng.Intn(4)]
+	}
 	if i%5 == 3 {
 		c.LeaseTimeBefore = []string{"3600s", "24h", "30s", "86400s"}[rng.Intn(4)]
 	}
@@ -205,6 +214,8 @@ func (r *rangeRun) tr(format string, a ...any) {
 		r.trace = r.trace[len(r.trace)-10:]
 	}
 }
+
+func mustHex(s string) []byte { b, _ := hex.DecodeString(s); return b }
 
 func clientKey(mac []byte) string { return fmt.Sprintf("%d:%x", len(mac), mac) }
 
@@ -308,6 +319,12 @@ func (rangeEngine) Run(ctx *fw.Ctx, cs any) {
 				if r.lease < 200*time.Hour { // stay far below the option's 2^32 s
 					newLease = (r.lease + time.Hour + time.Duration(r.rng.Intn(3600))*time.Second).String()
 				}
+				if r.lease > 2*time.Minute && r.rng.Intn(2) == 0 {
+					// or lower it: replies announce the configured lease time from now on, also to clients
+					// whose stored lease still runs longer
+					newLease = (r.lease / time.Duration(2+r.rng.Intn(5))).Round(time.Second).String()
+					ctx.Count("range.restarts_with_shorter_lease", 1)
+				}
 			}
 			h, err := r.setup(r.db, r.m.Start, newEnd, newLease)
 			r.tr("restart range=[%s,%s] lease=%s -> %v", model.U32IP(r.m.Start), model.U32IP(newEnd), newLease, err)
@@ -326,6 +343,12 @@ func (rangeEngine) Run(ctx *fw.Ctx, cs any) {
 		}
 		if c.LockFaultAt == i && used > 0 {
 			r.lockFault(c.Clients[r.rng.Intn(used)])
+			if used < len(c.Clients) {
+				r.lockFaultNew(c.Clients[used])
+				if _, ok := r.m.Bind[clientKey(mustHex(c.Clients[used].Mac))]; ok {
+					used++
+				}
+			}
 		}
 		// choose a client: new one (fills the pool) or a known one
 		var cl rangeClient
@@ -443,6 +466,39 @@ func (rangeEngine) Run(ctx *fw.Ctx, cs any) {
 					ctx.Viol("C02", sig, "after its lease time had passed and the pool was exhausted: %s\n  last: %v", msg, r.trace)
 				}
 				ctx.Count("range.rechecked_after_expiry", 1)
+			}
+		}
+	}
+	if c.FastRepeat > 0 && used > 0 {
+		cl := c.Clients[r.rng.Intn(used)]
+		mac, _ := hex.DecodeString(cl.Mac)
+		key := clientKey(mac)
+		if _, bound := r.m.Bind[key]; bound {
+			req := r.request(cl, byte(1+2*r.rng.Intn(2)))
+			for k := 0; k < 5; k++ {
+				if k > 0 {
+					time.Sleep(time.Duration(c.FastRepeat) * time.Millisecond)
+				}
+				tBefore := time.Now()
+				rep, _, _ := one4(r.s, req)
+				r.tr("copy #%d of one datagram from %s (%d ms apart) -> %s", k+1, key, c.FastRepeat, repStr(rep))
+				if sig, msg := r.m.Judge(key, rep != nil, yi(rep)); sig != "" {
+					ctx.Viol("C02", sig, "identical datagram repeated: %s\n  last: %v", msg, r.trace)
+					break
+				}
+				if rep != nil {
+					promised := rep.IPAddressLeaseTime(r.lease)
+					if promised < r.lease {
+						promised = r.lease
+					}
+					r.promise[key] = tBefore.Add(promised)
+				}
+				ctx.Count("range.fast_repeats", 1)
+				if k >= 2 {
+					if !r.crashPoint(c.Reqs + 10 + k) {
+						return
+					}
+				}
 			}
 		}
 	}
@@ -684,6 +740,69 @@ func (r *rangeRun) chain(h handler.Handler4) []handler.Handler4 {
 // lockFault: a renewal while the lease database cannot be written (another connection holds the write
 // lock until the plugin's busy timeout has passed). The client must still be served its address, and
 // nobody's binding may change because of it.
+// lockFaultNew: another connection holds the write lock of the lease database while a client the server has
+// never seen sends a DISCOVER and, 200 ms later, a second one (both in flight: the first is inside the
+// plugin waiting for sqlite's busy timeout). Whatever the plugin does about the failing write, the two
+// replies must name the same address, and the history goes on from there.
+func (r *rangeRun) lockFaultNew(cl rangeClient) {
+	mac, _ := hex.DecodeString(cl.Mac)
+	key := clientKey(mac)
+	if _, ok := r.m.Bind[key]; ok || r.m.Full() {
+		return
+	}
+	db, err := sql.Open("sqlite3", "file:"+r.db)
+	if err != nil {
+		return
+	}
+	defer db.Close()
+	conn, err := db.Conn(context.Background())
+	if err != nil {
+		return
+	}
+	defer conn.Close()
+	if _, err := conn.ExecContext(context.Background(), "BEGIN IMMEDIATE"); err != nil {
+		return
+	}
+	req1 := r.request(cl, 1)
+	req2 := r.request(cl, 1)
+	r.s.Take()
+	var wg sync.WaitGroup
+	wg.Add(2)
+	go func() { defer wg.Done(); r.s.l.Inject(req1, fakeIf, relayPeer4) }()
+	time.Sleep(200 * time.Millisecond)
+	go func() { defer wg.Done(); r.s.l.Inject(req2, fakeIf, relayPeer4) }()
+	time.Sleep(5400 * time.Millisecond) // sqlite's busy timeout is 5 s: the first write has failed by now
+	conn.ExecContext(context.Background(), "ROLLBACK")
+	wg.Wait()
+	caps := r.s.Take()
+	var reps []*dhcpv4.DHCPv4
+	for _, cp := range caps {
+		if rep, err := dhcpv4.FromBytes(cp.Payload); err == nil {
+			reps = append(reps, rep)
+		}
+	}
+	var shown []string
+	for _, rep := range reps {
+		shown = append(shown, repStr(rep))
+	}
+	r.tr("two DISCOVERs of new client %s, 200 ms apart, while the database was write-locked -> %v", key, shown)
+	r.ctx.Count("range.lock_faults_new_client", 1)
+	if len(reps) > 2 {
+		r.ctx.Viol("C02", "reply-malformed", "two requests, %d replies", len(reps))
+	}
+	for len(reps) < 2 {
+		reps = append(reps, nil)
+	}
+	for _, rep := range reps {
+		if sig, msg := r.m.Judge(key, rep != nil, yi(rep)); sig != "" {
+			for _, pr := range []string{"C02", "C16"} {
+				r.ctx.Viol(pr, sig, "two datagrams of a new client in flight while the lease database was write-locked: %s\n  last: %v", msg, r.trace)
+			}
+		}
+	}
+	delete(r.promise, key)
+}
+
 func (r *rangeRun) lockFault(cl rangeClient) {
 	mac, _ := hex.DecodeString(cl.Mac)
 	key := clientKey(mac)
